@@ -248,4 +248,7 @@ def run(ctx: Ctx) -> None:
 
     c06.run(Alias(ctx, "C01.R10", "pipelined requests: the parked reader is released only after the finished stream was torn down (C06.R3/R4), otherwise a buffered request is never started or loses its body", only={"C06.R3", "C06.R4"}))
 
+    from . import typestate_rules
+
+    typestate_rules.run_for(ctx, "C01")
     ctx.assume("not decided: byte equality under every segmentation and framing (h11 / h2 incremental parsers, runtime values); urllib.parse.unquote semantics; timing between reads and application progress")
